@@ -746,7 +746,7 @@ def run(ctx):
 
     # (a) detection
     pending = []
-    for case, rng in ctx.cases(ctx.n(160, 2400), stream='detect'):
+    for case, rng in ctx.cases(ctx.n(160, 6000), stream='detect'):
         conv = CONVENTIONS[case % len(CONVENTIONS)]
         spec = {'part': 'a', 'case': case, 'convention': conv}
         with quiet_warnings():
@@ -757,7 +757,7 @@ def run(ctx):
     compare_fresh(obs, ctx, pending)
 
     # (b) registration orders
-    for case, rng in ctx.cases(ctx.n(96, 1200), stream='register'):
+    for case, rng in ctx.cases(ctx.n(96, 3000), stream='register'):
         conv = (CONVENTIONS + ['none'])[case % 6]
         spec = {'part': 'b', 'case': case, 'convention': conv}
         ctx.run_case(spec, registration_case, obs, rng, ctx, spec)
@@ -786,7 +786,7 @@ def run(ctx):
             obs.extra['histories_in_space'] = len(sequences)
             obs.extra['history_max_length'] = max_len
     wide = 'abcCxyBYndDsg'
-    for case, rng in ctx.cases(ctx.n(200, 4000), stream='hist-random'):
+    for case, rng in ctx.cases(ctx.n(200, 12000), stream='hist-random'):
         length = int(rng.integers(6, 21))
         ops, has_b = [], False
         while len(ops) < length:
